@@ -22,6 +22,18 @@ CLAIMS = {
   "text": "Theorems: readable_count output is at most 6 characters below 2^60 (C20_readable_len), exact below 1000 (C20_readable_small_exact), and from 1000 to 2^60 parses back to a value with at least two significant digits within half a unit of the last displayed digit of float(count) (C20_readable_two_digits_and_close, for ALL counts; float(count) error bound C20_float_of_count); the chunk grid walked by the converters has exactly the reported number of chunks, its chunks partition the volume and their voxel counts add up to the volume, and the reported size is voxels x itemsize x channels (C20_chunk_count, C20_chunk_cover_unique, C20_chunk_voxels_total, C20_size_bytes). Correspondence: ~30k counts per run (windows around every prefix boundary, 9.95x, 999.5x, 2^53+), 150 infos through show_scales_info, 5 really converted pyramids (files counted, chunks decoded).",
   "note": "format(x, '.0f'/'.1f') is modelled as exact half-to-even decimal rounding of the binary value (what CPython implements); np.prod int64 wrap-around is modelled and the theorems assume < 2^63.",
   "ref": "DESIGN.md §8 C20"},
+ "C01": {
+  "text": "Theorem C01_convert_pointwise: for ALL volume sizes, chunk sizes (dividing the size or not, larger than the volume, 1), channel counts: after the conversion loop, for every voxel (x,y,z) and channel, the chunk of the grid holding it reads back and, indexed in (C,Z,Y,X) order, yields f(vol x y z c) where f is the element-wise value mapping (C11) — composed from the tiling model of volume_to_precomputed, the I/O refinement of C03 and a codec round-trip hypothesis (C02); C01_all_writes_valid / C01_grid_count: every write is on the grid, one per cell. End-to-end on every run: 90 (quick) synthetic NIfTI files (3-D/4-D/RGB, 10 on-disk dtypes, header scaling, --ignore-scaling, --mmap, --input-min/max, target types, chunk sizes 1..8, raw/compressed_segmentation, deep/flat x gzip x sharded) through the real commands, scale 0 reassembled through a fresh accessor and compared voxel by voxel with an exact-rational expectation; the sequence and contents of write_chunk calls are compared with the model's convert_ops.",
+  "note": "nibabel's file parsing and scaling arithmetic are trusted inputs (the expectation starts from the nibabel array); --input-min/max scaling is compared with a tolerance of one unit in the last place of the work type; values inside the C11 known-finding regions (64-bit integers above 2^52, float->uint64 top) are kept out of the generator.",
+  "ref": "DESIGN.md §8 C01"},
+ "C13": {
+  "text": "Theorems over the model of convert_chunks (scales reversed, destination grid in np.ndindex order, read-transform-write, abort on first failure): C13_source_never_written (the event trace contains no store on the source handle, for every run), C13_convert_pointwise (on success EVERY chunk of EVERY destination scale reads back as the element-wise conversion of the same source chunk — any number of scales, per-scale chunk sizes), C13_grid_same_chunks. End-to-end on every run: 24 sources x 2 destinations produced by the real pipeline (multi-scale, 5 dtypes, 1..3 channels; other encoding/layout/gzip/sharding; wider or narrower dtype; --copy-info; HTTP source over loopback), both trees decoded and compared with an exact-rational conversion reference, SHA-256 of the source tree before/after, order of read_chunk/write_chunk calls compared with the model.",
+  "note": "f (C11), codec round trip (C02), decoder shape (C10) are hypotheses of the theorem discharged by those properties' theorems; the stores are the abstract ones of C03.",
+  "ref": "DESIGN.md §8 C13"},
+ "C19": {
+  "text": "Theorems: C19_all_in_one_eq_steps (the all-in-one command is the same composition of library steps as the documented sequence, equal as soon as a re-opened dataset returns the stored info — the only difference between the two is the re-reading of the info), C19_write_volume_repeatable (running the volume-writing loop twice leaves every valid position reading the same chunk as running it once, for all volumes/chunk sizes, without assuming the writes succeed); exit-status-0 completeness is C13_convert_pointwise / C01_convert_pointwise. The weight of this check is the end-to-end run: 10 (quick) / 300 (thorough) workflows as real subprocesses — all-in-one vs step-by-step (info JSON and decoded voxels at every scale equal), repeated data-writing steps, convert-chunks --copy-info twice, scale-stats interleaved, completeness after exit 0.",
+  "note": "The command-level theorem is over abstract library steps (their own correctness is C08/C01/C06); the correspondence for C19 is oracle-only (the two real pipelines against each other and against decoding), not model-vs-implementation. The all-in-one command has no --sharding option, so sharded datasets exercise only the step-by-step half. uint64 averaging (C07 finding) is kept out of the generator.",
+  "ref": "DESIGN.md §8 C19"},
 }
 def main():
     props = [json.loads(l) for l in open(os.path.join(V, "properties.jsonl"))]
